@@ -11,7 +11,9 @@
 From Coq Require Import List Bool Arith Ascii String NArith.
 From UV.Base Require Import Order Res.
 From UV.Py Require Import PyStr.
-From UV.Schemes Require Import Common Semver SemverProofs.
+From UV.Schemes Require Import Common Semver SemverProofs Gem GemProofs GemHelpers.
+From UV.Base Require Import LexPad.
+From UV.Ref Require Gem.
 Import ListNotations.
 
 Theorem C18_semver_successors_are_ordered :
@@ -57,6 +59,15 @@ Example C18_nonvacuous :
             semver_cmp v (next_major v) = Lt.
 Proof. eexists. repeat split; vm_compute; reflexivity. Qed.
 
+(* gem: on the canonical segments (what Gem::Version compares), a version whose text starts with a number is
+   strictly below its bump() and not above its release(); hence "~> v" = [>= v, < bump v] has lower < upper with v inside *)
+Theorem C18_gem_bump_and_release : forall segs : list UV.Ref.Gem.seg,
+  UV.Ref.Gem.take_nums segs <> nil ->
+  cmp_pad UV.Ref.Gem.seg_cmp (UV.Ref.Gem.SNum 0) (canon_of segs) (UV.Ref.Gem.drop_trailing_zeros (bump_list segs)) = Lt /\
+  cmp_pad UV.Ref.Gem.seg_cmp (UV.Ref.Gem.SNum 0) (canon_of segs) (UV.Ref.Gem.drop_trailing_zeros (release_list segs)) <> Gt.
+Proof. intros segs H. split; [apply bump_above; exact H|apply release_not_below]. Qed.
+
 Print Assumptions C18_semver_successors_are_ordered.
 Print Assumptions C18_semver_successors_are_strictly_greater.
 Print Assumptions C18_semver_shorthand_bounds_bracket_the_version.
+Print Assumptions C18_gem_bump_and_release.
